@@ -14,6 +14,9 @@ impl DetectProp for C06 {
         if idx % 10 == 9 {
             return declaration_at_zone_edge(rng);
         }
+        if idx % 20 == 7 {
+            return conflicting_hints_case(rng);
+        }
         if idx % 10 == 4 {
             // a keyword-like fragment with a label that names nothing, before the real declaration
             let first = *rng.pick(&["Content-Transfer-Encoding: 7bit\n", "Content-Encoding: gzip\n", "Accept-Encoding: br\n", "<?xml version=\"1.0\" encoding=\"utf-57\"?>\n", "transfer-coding = chunked\n"]);
